@@ -101,6 +101,7 @@ package fastaio
 //@   after send#4: do if hdrs == 2 { gWidth = gLen }; gLen = 0; gScore = 0; gA = 0; gC = 0; gG = 0; gT = 0
 //@   before send#8: assert [lastrecord] fr.Idx == hdrs - 1 && len(fr.Seq) == gLen && fr.Score == gScore && fr.Count_A == gA && fr.Count_C == gC && fr.Count_G == gG && fr.Count_T == gT && forall(j, 0, len(fr.Seq), isCode(fr.Seq[j]))
 //@   ensures [c18.exclusive] len(sent(cErr)) + len(sent(cDone)) == 1
+//@   ensures [c18.width] forall(t, 0, len(sent(chnl)), len(sent(chnl)[t].Seq) == len(sent(chnl)[0].Seq))
 //@   ensures [local.strict.count] implies(len(sent(cErr)) == 0, len(sent(chnl)) == hdrs && hdrs >= 1)
 //@   ensures [idx] forall(t, 0, len(sent(chnl)), sent(chnl)[t].Idx == t)
 //@ # the same specification state machine (hdrs, gLen, gWidth) is the contract of every reader, so they agree with one
@@ -130,6 +131,7 @@ package fastaio
 //@   before send#8: assert [lastrecord.len] len(fr.Seq) == gLen
 //@   before send#8: assert [lastrecord.codes] forall(j, 0, len(fr.Seq), isCode(fr.Seq[j]))
 //@   ensures [c18.exclusive] len(sent(cErr)) + len(sent(cDone)) == 1
+//@   ensures [c18.width] forall(t, 0, len(sent(chnl)), len(sent(chnl)[t].Seq) == len(sent(chnl)[0].Seq))
 //@   ensures [local.strict.count] implies(len(sent(cErr)) == 0, len(sent(chnl)) == hdrs && hdrs >= 1)
 //@   ensures [idx] forall(t, 0, len(sent(chnl)), sent(chnl)[t].Idx == t)
 
@@ -152,6 +154,7 @@ package fastaio
 //@   after append#1: do if hdrs == 2 { gWidth = gLen }; gLen = 0
 //@   before append#3: assert [lastrecord] fr.Idx == hdrs - 1 && len(fr.Seq) == gLen && forall(j, 0, len(fr.Seq), isCode(fr.Seq[j]))
 //@   ensures [local.strict.count] implies(result2 == nil, len(result1) == hdrs && hdrs >= 1)
+//@   ensures [c18.width] implies(result2 == nil, forall(t, 0, len(result1), len(result1[t].Seq) == len(result1[0].Seq)))
 //@   ensures [nonempty] implies(result2 == nil, len(result1) >= 1)
 //@   ensures [idx] implies(result2 == nil, forall(t, 0, len(result1), result1[t].Idx == t && result1[t].Count_A == 0 && result1[t].Count_C == 0 && result1[t].Count_G == 0 && result1[t].Count_T == 0))
 //@   ensures [error.empty] implies(result2 != nil, len(result1) == 0)
@@ -172,6 +175,7 @@ package fastaio
 //@   after send#4: do if hdrs == 2 { gWidth = gLen }; gLen = 0; gSeq = ""
 //@   before send#7: assert [lastrecord] fr.Idx == hdrs - 1 && len(fr.Seq) == gLen && fr.Seq == gSeq
 //@   ensures [c18.exclusive] len(sent(cErr)) + len(sent(cdone)) == 1
+//@   ensures [c18.width] forall(t, 0, len(sent(chnl)), len(sent(chnl)[t].Seq) == len(sent(chnl)[0].Seq))
 //@   ensures [local.strict.count] implies(len(sent(cErr)) == 0, len(sent(chnl)) == hdrs && hdrs >= 1)
 //@   ensures [idx] forall(t, 0, len(sent(chnl)), sent(chnl)[t].Idx == t)
 
